@@ -897,6 +897,40 @@ func runFacts(repo, outdir string) error {
 			}
 			lcc.raw(fmt.Sprintf("/-- every `acquireState()` call site declares fresh variables and defers the release in the next statement (%d sites) -/\ndef everyAcquireHasDeferredRelease : Bool := %v\n\n", sites, paired && sites > 0 && sites == total))
 		}
+		{
+			// which functions of package wal touch a state's reference count (any atomic operation on, or assignment to,
+			// a `.refCount` selector): the refcount theorems (Model.Conc) assume acquire and release are the only ones
+			var touch []string
+			seen := map[string]bool{}
+			for _, f := range walP.files {
+				for _, d := range f.Decls {
+					fd, ok := d.(*ast.FuncDecl)
+					if !ok || fd.Body == nil {
+						continue
+					}
+					hit := false
+					ast.Inspect(fd.Body, func(n ast.Node) bool {
+						if se, ok := n.(*ast.SelectorExpr); ok && se.Sel.Name == "refCount" {
+							hit = true
+						}
+						return true
+					})
+					if hit {
+						name := fd.Name.Name
+						if fd.Recv != nil && len(fd.Recv.List) == 1 {
+							t := walP.src(fd.Recv.List[0].Type)
+							name = strings.TrimPrefix(t, "*") + "." + name
+						}
+						if !seen[name] {
+							seen[name] = true
+							touch = append(touch, leanStr(name))
+						}
+					}
+				}
+			}
+			sort.Strings(touch)
+			lcc.raw("/-- the functions of package wal in which a state's `refCount` is read or written -/\ndef refCountTouchedBy : List String :=\n  " + leanList(touch) + "\n\n")
+		}
 		if err := lcc.finish(outdir); err != nil {
 			return err
 		}
@@ -1025,6 +1059,16 @@ func runFacts(repo, outdir string) error {
 		if err := lw.finish(outdir); err != nil {
 			return err
 		}
+	}
+
+	// ---------- read path buffer discipline (Pool.lean): the guards of Model.Pool, read from the call sites ----------
+	if err := genPoolCfg(walP, segP, outdir); err != nil {
+		return err
+	}
+
+	// ---------- wal.go decision logic translated into Lean functions (WalDecide.lean) ----------
+	if err := genWalDecide(walP, outdir); err != nil {
+		return err
 	}
 
 	// ---------- fs ----------
@@ -1300,4 +1344,546 @@ func varintGuard(p *factPkg, fd *ast.FuncDecl) (overflowPanics, shortIsErr bool,
 		return false, false, nil
 	}
 	return true, false, nil
+}
+
+// ---------------------------------------------------------------------------------------------------------------------
+// Translation of wal.go's decision logic into Lean *functions* (not text): the theorems of Props/C05 and C04 prove
+// these equal to the model's own decisions for all arguments, so a rewrite of a condition that keeps its meaning still
+// checks and one that changes it breaks a proof obligation.
+
+// u64Lean translates a uint64-valued Go expression. Leaves (identifiers, selectors, calls) are looked up by their
+// source text in names. + and - wrap as uint64 does.
+func u64Lean(p *factPkg, x ast.Expr, names map[string]string) (string, error) {
+	oneLine := func(x string) string { return strings.Join(strings.Fields(x), " ") }
+	if v, ok := names[oneLine(p.src(x))]; ok {
+		return v, nil
+	}
+	switch x := x.(type) {
+	case *ast.BasicLit:
+		if x.Kind == token.INT {
+			return x.Value, nil
+		}
+	case *ast.ParenExpr:
+		return u64Lean(p, x.X, names)
+	case *ast.BinaryExpr:
+		a, err := u64Lean(p, x.X, names)
+		if err != nil {
+			return "", err
+		}
+		b, err := u64Lean(p, x.Y, names)
+		if err != nil {
+			return "", err
+		}
+		switch x.Op {
+		case token.ADD:
+			return "(u64 (" + a + " + " + b + "))", nil
+		case token.SUB:
+			return "(u64sub " + a + " " + b + ")", nil
+		}
+		return "", fmt.Errorf("unsupported uint64 operator %s in %q", x.Op, oneLine(p.src(x)))
+	case *ast.CallExpr:
+		if id, ok := x.Fun.(*ast.Ident); ok && id.Name == "uint64" && len(x.Args) == 1 {
+			return u64Lean(p, x.Args[0], names)
+		}
+	}
+	return "", fmt.Errorf("operand %q is not understood (known: %v)", oneLine(p.src(x)), names)
+}
+
+// boolLean translates a Go condition over uint64 operands into a Lean Bool term.
+func boolLean(p *factPkg, x ast.Expr, names map[string]string) (string, error) {
+	oneLine := func(x string) string { return strings.Join(strings.Fields(x), " ") }
+	if v, ok := names["bool:"+oneLine(p.src(x))]; ok {
+		return v, nil
+	}
+	switch x := x.(type) {
+	case *ast.ParenExpr:
+		return boolLean(p, x.X, names)
+	case *ast.UnaryExpr:
+		if x.Op == token.NOT {
+			a, err := boolLean(p, x.X, names)
+			return "(!" + a + ")", err
+		}
+	case *ast.BinaryExpr:
+		switch x.Op {
+		case token.LAND, token.LOR:
+			a, err := boolLean(p, x.X, names)
+			if err != nil {
+				return "", err
+			}
+			b, err := boolLean(p, x.Y, names)
+			if err != nil {
+				return "", err
+			}
+			op := "&&"
+			if x.Op == token.LOR {
+				op = "||"
+			}
+			return "(" + a + " " + op + " " + b + ")", nil
+		case token.LSS, token.LEQ, token.GTR, token.GEQ, token.EQL, token.NEQ:
+			a, err := u64Lean(p, x.X, names)
+			if err != nil {
+				return "", err
+			}
+			b, err := u64Lean(p, x.Y, names)
+			if err != nil {
+				return "", err
+			}
+			op := map[token.Token]string{token.LSS: "<", token.LEQ: "≤", token.GTR: ">", token.GEQ: "≥", token.EQL: "=", token.NEQ: "≠"}[x.Op]
+			return "(decide (" + a + " " + op + " " + b + "))", nil
+		}
+	}
+	return "", fmt.Errorf("condition %q is not understood", oneLine(p.src(x)))
+}
+
+// delBodyLean translates the statements of one case of DeleteRange's switch into a DelAction term.
+func delBodyLean(p *factPkg, body []ast.Stmt, names map[string]string) (string, error) {
+	oneLine := func(x string) string { return strings.Join(strings.Fields(x), " ") }
+	if len(body) == 0 {
+		return "", fmt.Errorf("a case of the switch falls out of it")
+	}
+	switch st := body[0].(type) {
+	case *ast.ReturnStmt:
+		if len(st.Results) != 1 {
+			break
+		}
+		if id, ok := st.Results[0].(*ast.Ident); ok && id.Name == "nil" {
+			return ".nothing", nil
+		}
+		if c, ok := st.Results[0].(*ast.CallExpr); ok {
+			fn := oneLine(p.src(c.Fun))
+			switch {
+			case fn == "fmt.Errorf" || fn == "errors.New":
+				return ".refuse", nil
+			case (fn == "w.truncateHeadLocked" || fn == "w.truncateTailLocked") && len(c.Args) == 1:
+				a, err := u64Lean(p, c.Args[0], names)
+				if err != nil {
+					return "", err
+				}
+				if fn == "w.truncateHeadLocked" {
+					return "(.head " + a + ")", nil
+				}
+				return "(.tail " + a + ")", nil
+			}
+		}
+	case *ast.IfStmt:
+		// `if C { v = E }` (no else, no init): v is re-bound for the statements that follow
+		if st.Init == nil && st.Else == nil && len(st.Body.List) == 1 {
+			if as, ok := st.Body.List[0].(*ast.AssignStmt); ok && as.Tok == token.ASSIGN && len(as.Lhs) == 1 && len(as.Rhs) == 1 {
+				v := oneLine(p.src(as.Lhs[0]))
+				lv, known := names[v]
+				if !known {
+					return "", fmt.Errorf("assignment to %q, which is not an operand of the classification", v)
+				}
+				c, err := boolLean(p, st.Cond, names)
+				if err != nil {
+					return "", err
+				}
+				e, err := u64Lean(p, as.Rhs[0], names)
+				if err != nil {
+					return "", err
+				}
+				rest, err := delBodyLean(p, body[1:], names)
+				if err != nil {
+					return "", err
+				}
+				return "(let " + lv + " := if " + c + " then " + e + " else " + lv + "; " + rest + ")", nil
+			}
+		}
+	case *ast.AssignStmt:
+		if st.Tok == token.ASSIGN && len(st.Lhs) == 1 && len(st.Rhs) == 1 {
+			v := oneLine(p.src(st.Lhs[0]))
+			if lv, known := names[v]; known {
+				e, err := u64Lean(p, st.Rhs[0], names)
+				if err != nil {
+					return "", err
+				}
+				rest, err := delBodyLean(p, body[1:], names)
+				if err != nil {
+					return "", err
+				}
+				return "(let " + lv + " := " + e + "; " + rest + ")", nil
+			}
+		}
+	}
+	return "", fmt.Errorf("statement %q in DeleteRange's switch is not understood", oneLine(p.src(body[0])))
+}
+
+func genWalDecide(walP *factPkg, outdir string) error {
+	oneLine := func(x string) string { return strings.Join(strings.Fields(x), " ") }
+	lw := newLean("WalDecide.lean", "wal.go (decision logic translated expression by expression)", "RaftWal.Model.WalDecide")
+	lw.raw("open RaftWal\n\n")
+	// ---- DeleteRange ----
+	dr, err := walP.fn("WAL", "DeleteRange")
+	if err != nil {
+		return err
+	}
+	names := map[string]string{"min": "min", "max": "max"}
+	// first/last must be bound to the state's firstIndex()/lastIndex() before the switch
+	bound := false
+	var sw *ast.SwitchStmt
+	var early []string
+	for _, st := range dr.Body.List {
+		switch x := st.(type) {
+		case *ast.AssignStmt:
+			if x.Tok == token.DEFINE && len(x.Lhs) == len(x.Rhs) {
+				for i := range x.Lhs {
+					l, r := oneLine(walP.src(x.Lhs[i])), oneLine(walP.src(x.Rhs[i]))
+					if r == "s.firstIndex()" {
+						names[l] = "first"
+						bound = true
+					}
+					if r == "s.lastIndex()" {
+						names[l] = "last"
+					}
+				}
+			}
+		case *ast.IfStmt:
+			// guards before the switch that return nil on a condition over min/max only (the empty range)
+			if x.Init == nil && x.Else == nil && sw == nil && len(x.Body.List) >= 1 {
+				if rs, ok := x.Body.List[len(x.Body.List)-1].(*ast.ReturnStmt); ok && len(rs.Results) == 1 && oneLine(walP.src(rs.Results[0])) == "nil" {
+					c, err := boolLean(walP, x.Cond, map[string]string{"min": "min", "max": "max"})
+					if err != nil {
+						return fmt.Errorf("wal.DeleteRange: early return: %v", err)
+					}
+					early = append(early, c)
+				}
+			}
+		case *ast.SwitchStmt:
+			if x.Tag == nil {
+				sw = x
+			}
+		}
+	}
+	if sw == nil || !bound || names["last"] == "" && func() bool {
+		for _, v := range names {
+			if v == "last" {
+				return false
+			}
+		}
+		return true
+	}() {
+		return fmt.Errorf("wal.DeleteRange: classification switch or the binding of first/last to the state's indexes not found")
+	}
+	var b strings.Builder
+	b.WriteString("/-- `DeleteRange` from its early returns to the call it makes, as a function of (min, max) and the state's (firstIndex, lastIndex); uint64 arithmetic wraps -/\ndef deleteRangeDecide (min max first last : Nat) : DelAction :=\n")
+	for _, c := range early {
+		b.WriteString("  if " + c + " then .nothing else\n")
+	}
+	deflt := ""
+	for _, cc := range sw.Body.List {
+		c := cc.(*ast.CaseClause)
+		body, err := delBodyLean(walP, c.Body, names)
+		if err != nil {
+			return fmt.Errorf("wal.DeleteRange: %v", err)
+		}
+		if len(c.List) == 0 {
+			deflt = body
+			continue
+		}
+		var cs []string
+		for _, e := range c.List {
+			t, err := boolLean(walP, e, names)
+			if err != nil {
+				return fmt.Errorf("wal.DeleteRange: %v", err)
+			}
+			cs = append(cs, t)
+		}
+		b.WriteString("  if " + strings.Join(cs, " || ") + " then " + body + " else\n")
+	}
+	if deflt == "" {
+		// a switch without default falls through to what follows it; the code returns an error there
+		return fmt.Errorf("wal.DeleteRange: the switch has no default case")
+	}
+	b.WriteString("  " + deflt + "\n\n")
+	lw.raw(b.String())
+
+	// ---- truncateTailLocked: the reverse scan keeps a segment (stops) when ... ----
+	scan := func(fname string) ([]*ast.IfStmt, *ast.FuncDecl, error) {
+		fd, err := walP.fn("WAL", fname)
+		if err != nil {
+			return nil, nil, err
+		}
+		var out []*ast.IfStmt
+		ast.Inspect(fd.Body, func(n ast.Node) bool {
+			if is, ok := n.(*ast.IfStmt); ok {
+				for _, st := range is.Body.List {
+					if bs, ok := st.(*ast.BranchStmt); ok && bs.Tok == token.BREAK {
+						out = append(out, is)
+					}
+				}
+			}
+			return true
+		})
+		return out, fd, nil
+	}
+	tIfs, _, err := scan("truncateTailLocked")
+	if err != nil {
+		return err
+	}
+	if len(tIfs) != 1 {
+		return fmt.Errorf("wal.truncateTailLocked: expected exactly one stop condition in the segment scan, found %d", len(tIfs))
+	}
+	tc, err := boolLean(walP, tIfs[0].Cond, map[string]string{"seg.BaseIndex": "segBase", "seg.MinIndex": "segMin", "seg.MaxIndex": "segMax", "newMax": "newMax"})
+	if err != nil {
+		return fmt.Errorf("wal.truncateTailLocked: %v", err)
+	}
+	lw.raw("/-- `truncateTailLocked`: the reverse scan stops at (keeps) a segment when -/\ndef truncateTailKeeps (segBase segMin segMax newMax : Nat) : Bool :=\n  " + tc + "\n\n")
+
+	// ---- truncateHeadLocked: the forward scan stops at a segment (it becomes the head) when ... ----
+	hIfs, _, err := scan("truncateHeadLocked")
+	if err != nil {
+		return err
+	}
+	// expected shape: if seg.SealTime.IsZero() { if C1 { head; break } } else if C2 { head; break }
+	hnames := map[string]string{"seg.BaseIndex": "segBase", "seg.MinIndex": "segMin", "seg.MaxIndex": "segMax", "newMin": "newMin",
+		"newState.lastIndex()": "stateLast", "bool:seg.SealTime.IsZero()": "(!segSealed)", "bool:!seg.SealTime.IsZero()": "segSealed"}
+	hd, err := walP.fn("WAL", "truncateHeadLocked")
+	if err != nil {
+		return err
+	}
+	var loop *ast.ForStmt
+	ast.Inspect(hd.Body, func(n ast.Node) bool {
+		if f, ok := n.(*ast.ForStmt); ok && loop == nil {
+			loop = f
+		}
+		return true
+	})
+	if loop == nil || len(hIfs) == 0 {
+		return fmt.Errorf("wal.truncateHeadLocked: the segment scan was not found")
+	}
+	// translate the loop body's if-chain that leads to a break into one Bool: stops := OR over paths(conds along the path)
+	var paths func(st ast.Stmt, along []string) ([]string, error)
+	paths = func(st ast.Stmt, along []string) ([]string, error) {
+		var out []string
+		switch x := st.(type) {
+		case *ast.BlockStmt:
+			for _, s := range x.List {
+				o, err := paths(s, along)
+				if err != nil {
+					return nil, err
+				}
+				out = append(out, o...)
+			}
+		case *ast.IfStmt:
+			if x.Init != nil {
+				return nil, fmt.Errorf("if with init in the scan")
+			}
+			c, err := boolLean(walP, x.Cond, hnames)
+			if err != nil {
+				// a condition that is not about the stop decision and has no break below it is skipped
+				hasBreak := false
+				ast.Inspect(x, func(n ast.Node) bool {
+					if bs, ok := n.(*ast.BranchStmt); ok && bs.Tok == token.BREAK {
+						hasBreak = true
+					}
+					return true
+				})
+				if hasBreak {
+					return nil, err
+				}
+				return nil, nil
+			}
+			o, err := paths(x.Body, append(append([]string{}, along...), c))
+			if err != nil {
+				return nil, err
+			}
+			out = append(out, o...)
+			if x.Else != nil {
+				o, err := paths(x.Else, append(append([]string{}, along...), "(!"+c+")"))
+				if err != nil {
+					return nil, err
+				}
+				out = append(out, o...)
+			}
+		case *ast.BranchStmt:
+			if x.Tok == token.BREAK {
+				if len(along) == 0 {
+					return []string{"true"}, nil
+				}
+				return []string{"(" + strings.Join(along, " && ") + ")"}, nil
+			}
+		}
+		return out, nil
+	}
+	hp, err := paths(loop.Body, nil)
+	if err != nil {
+		return fmt.Errorf("wal.truncateHeadLocked: %v", err)
+	}
+	if len(hp) == 0 {
+		return fmt.Errorf("wal.truncateHeadLocked: no path of the scan reaches a break")
+	}
+	lw.raw("/-- `truncateHeadLocked`: the forward scan stops at a segment (it becomes the new head) when — `stateLast` is `newState.lastIndex()` evaluated at that point of the scan -/\ndef truncateHeadStopsAt (segSealed : Bool) (segBase segMin segMax stateLast newMin : Nat) : Bool :=\n  " + strings.Join(hp, " || ") + "\n\n")
+
+	// ---- counters: nTruncated of both truncations ----
+	// head: `if C { upTo := newMin; if upTo > X { upTo = X }; nTruncated = upTo - oldFirstIndex }`
+	// (translated as text-free arithmetic only when it has exactly that shape; otherwise left to the correspondence)
+
+	// ---- StoreLogs: re-base condition and monotonicity check ----
+	sl, err := walP.fn("WAL", "StoreLogs")
+	if err != nil {
+		return err
+	}
+	var resetIf, monoIf *ast.IfStmt
+	ast.Inspect(sl.Body, func(n ast.Node) bool {
+		if is, ok := n.(*ast.IfStmt); ok {
+			bsrc := walP.src(is.Body)
+			if strings.Contains(bsrc, "resetEmptyFirstSegmentBaseIndex(") && resetIf == nil {
+				resetIf = is
+			}
+			if strings.Contains(bsrc, "non-monotonic") && monoIf == nil {
+				monoIf = is
+			}
+		}
+		return true
+	})
+	if resetIf == nil || monoIf == nil {
+		return fmt.Errorf("wal.StoreLogs: re-base condition or monotonicity check not found")
+	}
+	rc, err := boolLean(walP, resetIf.Cond, map[string]string{"lastIdx": "lastIdx", "logs[0].Index": "firstNew", "ti.BaseIndex": "tailBase"})
+	if err != nil {
+		return fmt.Errorf("wal.StoreLogs: %v", err)
+	}
+	mc, err := boolLean(walP, monoIf.Cond, map[string]string{"lastIdx": "lastIdx", "l.Index": "idx"})
+	if err != nil {
+		return fmt.Errorf("wal.StoreLogs: %v", err)
+	}
+	lw.raw("/-- `StoreLogs`: the empty tail is re-based when -/\ndef storeRebases (lastIdx firstNew tailBase : Nat) : Bool :=\n  " + rc + "\n\n")
+	lw.raw("/-- `StoreLogs`: an entry is refused as non-monotonic when (`lastIdx` is the index of the entry before it, 0 for none) -/\ndef storeRefusesIndex (lastIdx idx : Nat) : Bool :=\n  " + mc + "\n\n")
+	return lw.finish(outdir)
+}
+
+// genPoolCfg reads the configuration of Model/Pool.lean off the source: WAL.GetLog (wal.go), Reader.readFrame and
+// Reader.makeBuffer (segment/reader.go), decoder.bytes (codec.go).
+func genPoolCfg(walP, segP *factPkg, outdir string) error {
+	oneLine := func(x string) string { return strings.Join(strings.Fields(x), " ") }
+	lp := newLean("Pool.lean", "wal.go (GetLog), segment/reader.go (readFrame, makeBuffer), codec.go (decoder.bytes)", "RaftWal.Model.Pool")
+	// --- decoder.bytes copies
+	db, err := walP.fn("decoder", "bytes")
+	if err != nil {
+		return err
+	}
+	dbs := walP.src(db.Body)
+	copies := strings.Contains(dbs, "make([]byte, n)") && strings.Contains(dbs, "copy(bs, d.buf[:n])") && !strings.Contains(dbs, "bs := d.buf[")
+	// --- WAL.GetLog: the buffer variable is the first result of s.getLog(...); every Close() of it; where Decode reads it
+	gl, err := walP.fn("WAL", "GetLog")
+	if err != nil {
+		return err
+	}
+	rawVar := ""
+	ast.Inspect(gl.Body, func(n ast.Node) bool {
+		if as, ok := n.(*ast.AssignStmt); ok && len(as.Rhs) == 1 && rawVar == "" {
+			if c, ok := as.Rhs[0].(*ast.CallExpr); ok && strings.HasSuffix(oneLine(walP.src(c.Fun)), ".getLog") && len(as.Lhs) >= 1 {
+				rawVar = oneLine(walP.src(as.Lhs[0]))
+			}
+		}
+		return true
+	})
+	if rawVar == "" {
+		return fmt.Errorf("wal.GetLog: the call of getLog whose first result is the pooled buffer was not found")
+	}
+	// Close calls on the buffer, deferred or direct, in source order; the position of the Decode that reads rawVar.Bs
+	type closeSite struct {
+		pos      token.Pos
+		deferred bool
+	}
+	var closes []closeSite
+	deferredCalls := map[*ast.CallExpr]bool{}
+	var decodePos token.Pos
+	ast.Inspect(gl.Body, func(n ast.Node) bool {
+		switch x := n.(type) {
+		case *ast.DeferStmt:
+			deferredCalls[x.Call] = true
+			// a deferred closure that closes the buffer counts as one deferred close per Close call inside it
+			if fl, ok := x.Call.Fun.(*ast.FuncLit); ok {
+				ast.Inspect(fl.Body, func(m ast.Node) bool {
+					if c, ok := m.(*ast.CallExpr); ok && oneLine(walP.src(c.Fun)) == rawVar+".Close" {
+						deferredCalls[c] = true
+					}
+					return true
+				})
+			}
+		case *ast.CallExpr:
+			f := oneLine(walP.src(x.Fun))
+			if f == rawVar+".Close" {
+				closes = append(closes, closeSite{x.Pos(), deferredCalls[x]})
+			}
+			if strings.HasSuffix(f, ".Decode") && strings.Contains(walP.src(x), rawVar+".Bs") && decodePos == 0 {
+				decodePos = x.Pos()
+			}
+		}
+		return true
+	})
+	if decodePos == 0 {
+		return fmt.Errorf("wal.GetLog: the Decode call reading %s.Bs was not found", rawVar)
+	}
+	nDeferred, nDirectBefore, nDirectAfter := 0, 0, 0
+	for _, c := range closes {
+		switch {
+		case c.deferred:
+			nDeferred++
+		case c.pos < decodePos:
+			nDirectBefore++
+		default:
+			nDirectAfter++
+		}
+	}
+	// the buffer is Put after Decode returned iff no direct Close precedes the Decode (a deferred one runs at return)
+	closeAfterDecode := nDirectBefore == 0 && (nDeferred+nDirectAfter) >= 1
+	getLogClosesOnce := nDeferred+nDirectBefore+nDirectAfter == 1
+	// --- Reader.readFrame: Close calls on the first buffer; the large path's buffer has no CloseFn; order
+	rf, err := segP.fn("Reader", "readFrame")
+	if err != nil {
+		return err
+	}
+	bufVar := ""
+	ast.Inspect(rf.Body, func(n ast.Node) bool {
+		if as, ok := n.(*ast.AssignStmt); ok && len(as.Rhs) == 1 && bufVar == "" {
+			if c, ok := as.Rhs[0].(*ast.CallExpr); ok && strings.HasSuffix(oneLine(segP.src(c.Fun)), ".makeBuffer") {
+				bufVar = oneLine(segP.src(as.Lhs[0]))
+			}
+		}
+		return true
+	})
+	if bufVar == "" {
+		return fmt.Errorf("segment.readFrame: the makeBuffer call was not found")
+	}
+	var rfCloses []token.Pos
+	var reassign *ast.AssignStmt
+	ast.Inspect(rf.Body, func(n ast.Node) bool {
+		switch x := n.(type) {
+		case *ast.CallExpr:
+			if oneLine(segP.src(x.Fun)) == bufVar+".Close" {
+				rfCloses = append(rfCloses, x.Pos())
+			}
+		case *ast.AssignStmt:
+			if x.Tok == token.ASSIGN && len(x.Lhs) == 1 && oneLine(segP.src(x.Lhs[0])) == bufVar && reassign == nil {
+				reassign = x
+			}
+		}
+		return true
+	})
+	if reassign == nil {
+		return fmt.Errorf("segment.readFrame: the large path's re-binding of %s was not found", bufVar)
+	}
+	largePrivate := !strings.Contains(segP.src(reassign.Rhs[0]), "CloseFn")
+	// Close calls on the first buffer: exactly one, and it precedes the re-binding (after which `buf` is another buffer)
+	firstBufClosedOnce := len(rfCloses) == 1 && rfCloses[0] < reassign.Pos()
+	nAfterRebind := 0
+	for _, p := range rfCloses {
+		if p > reassign.Pos() {
+			nAfterRebind++
+		}
+	}
+	largeClosesFirst := len(rfCloses) >= 1 && rfCloses[0] < reassign.Pos()
+	// --- makeBuffer: the CloseFn Puts the buffer exactly once
+	mb, err := segP.fn("Reader", "makeBuffer")
+	if err != nil {
+		return err
+	}
+	puts := strings.Count(segP.src(mb.Body), ".Put(")
+	closeOnce := getLogClosesOnce && firstBufClosedOnce && nAfterRebind == 0 && puts == 1
+	lp.raw(fmt.Sprintf("/-- the guards of the read path's buffer discipline as the source has them: `decoder.bytes` copies (make + copy); in `WAL.GetLog` no `%s.Close()` runs before the `Decode` that reads `%s.Bs` (%d deferred, %d direct before, %d direct after it); every pooled buffer is Put back once per Get (GetLog closes once: %v; `readFrame` closes its first buffer once and before re-binding `%s`: %v; `makeBuffer`'s CloseFn has %d Put); the large path's buffer is built without a CloseFn; the first buffer is closed before that -/\ndef poolCfg : RaftWal.Pool.PoolCfg :=\n  { decoderCopies := %v, closeAfterDecode := %v, closeOnce := %v, largePathPrivate := %v, largePathClosesFirst := %v }\n\n",
+		rawVar, rawVar, nDeferred, nDirectBefore, nDirectAfter, getLogClosesOnce, bufVar, firstBufClosedOnce, puts,
+		copies, closeAfterDecode, closeOnce, largePrivate, largeClosesFirst))
+	return lp.finish(outdir)
 }
